@@ -217,6 +217,8 @@ class VTuner:
             vt.reports_in_run = 0
             vt.run_max = self._run_max(vt.config)
             vt.next_level = vt.last_level + 1 if self.p.get("checkpointing", True) else 1
+            if vt.stride > 1 and self.p.get("stride_first_level_offset", True):
+                vt.next_level = min(vt.next_level + vt.stride - 1, vt.run_max)  # the script keeps validating every k-th epoch
             vt.run_start_level = vt.next_level
             self.running.append(tid)
         self._notify("post_suggest", next_id, sugg, vt)
